@@ -68,6 +68,14 @@ def install(bsp, cfg):
                     'tabs': {'texinfo': N.ns(self.texinfo), 'planes': N.ns(self.planes), 'surfedges': N.ns(self.surfedges),
                              'prims': N.ns(self.primitives), 'origFaces': N.ns(self.orig_faces) if uo else []},
                     'faces': [face_json(f) for f in data]}
+        if lump is BSP_LUMPS.FACES and vit:
+            return {'op': 'x_vfaces',
+                    'tabs': {'texinfo': N.ns(self.texinfo), 'planes': N.ns(self.planes), 'surfedges': N.ns(self.surfedges)},
+                    'faces': [{'plane': N.n(f.plane), 'texinfo': None if f.texinfo is None else N.n(f.texinfo), 'dispinfo': f._dispinfo_ind,
+                               'edges': N.ns(f.edges), 'lm': [*f.lightmap_mins, *f.lightmap_size], 'flags': f.vitamin_flags} for f in data]}
+        if lump is BSP_LUMPS.LEAFWATERDATA:
+            return {'op': 'x_water', 'layout': layout, 'texinfo': N.ns(self.texinfo),
+                    'items': [{'sz': W.f32bits(x.surface_z), 'mz': W.f32bits(x.min_z), 'texinfo': N.n(x.surface_texinfo)} for x in data]}
         if lump is BSP_LUMPS.BRUSHES:
             sides = {}
             for b in data:
@@ -150,6 +158,10 @@ def install(bsp, cfg):
             if req['useOrig'] and any(f['orig'] is not None for f in req['faces']):
                 exp['faceids'] = L('FACEIDS')
             return exp
+        if req['op'] == 'x_vfaces':
+            return {'bytes': list(out), 'tabs': {'texinfo': N.ns(self.texinfo), 'planes': N.ns(self.planes), 'surfedges': N.ns(self.surfedges)}}
+        if req['op'] == 'x_water':
+            return {'bytes': list(out), 'texinfo': N.ns(self.texinfo)}
         if req['op'] == 'x_brushes':
             return {'brushes': list(out), 'sides': L('BRUSHSIDES'),
                     'tabs': {'planes': N.ns(self.planes), 'texinfo': N.ns(self.texinfo)}}
